@@ -622,7 +622,7 @@ func decompressWatched(comp compressor.Compressor, d []byte) (z []byte, err erro
 	select {
 	case r := <-ch:
 		return r.z, r.err, false, r.pan
-	case <-time.After(c24HangTimeout):
+	case <-time.After(pbt.Bound(c24HangTimeout)):
 		return nil, nil, true, nil
 	}
 }
